@@ -5,7 +5,14 @@ import gen_text
 from langbatch import run_subs, unhex_diag
 from model_lang import Model, compare, dump_to_plain
 from runner import Failure, Outcome, h64
-from schema import (HAND, schemas, F_COMMENTS, F_IGNORE_UNKNOWN, F_NOCASE, F_KEYSTRVAL)
+from schema import (HAND, schemas, F_COMMENTS, F_IGNORE_UNKNOWN, F_NOCASE, F_KEYSTRVAL, F_MULTI, F_TITLE, o_int, o_str, o_list, o_sec, o_func)
+
+# declared options whose names belong to the library's own vocabulary (an undeclared item is skipped, never redirected to them)
+HAND["c12u"] = [
+    o_int("i", 5), o_str("__unknown", "U0"), o_str("unknown", "U1"), o_list("str", "root", "{r}"),
+    o_sec("single", [o_int("x", 1), o_str("__unknown", "U2"), o_func("__unknown_fn")]),
+    o_sec("tm", [o_int("x", 1), o_list("str", "__unknown", "{a}")], F_MULTI | F_TITLE), o_func("fn"),
+]
 
 UNK = ["unk_q7", "zz_unknown", "Nope9", "zz_future|knob", "zz_a|zz_b|c", "\"zz_k=v\"", "'zz q'", "zz_x|", "\"\"", "''"]
 VALS = ["v", "\"a b\"", "'q'", "12", "\"\"", "${HOME}", "\"x\\ny\"", "\"}\"", "\")\"", "\"{\"", "\"(\"", "\",\"", "\"=\"", "'} x'", "\") y\"", "\"+=\""]
@@ -136,6 +143,9 @@ class C12:
 
     def directed(self, tier):
         out = []
+        for u in ("zz = 5\n", "zz = {1, 2}\n", "zz += q\n", "zz(a, b)\n", "zz { a = 1 }\n", "zz t { }\n", "zz = \"s\"\n"):
+            for fl in (0, F_COMMENTS, F_NOCASE):
+                out.append({"schema": "c12u", "flags": fl, "text": "i = 3\nsingle { x = 4 }\ntm a { x = 2 }\nfn(p)\n", "unknowns": [u]})
         K = 5 if tier == "thorough" else 4
         for k in range(0, K + 1):
             n = 10 ** k
@@ -144,7 +154,7 @@ class C12:
         return out
 
     def strategy(self, tier):
-        hand = ["basic", "sections", "keyval", "nodefault", "names", "ptrs", "tutorial", "mixed", "deprecated"]
+        hand = ["basic", "sections", "keyval", "nodefault", "names", "ptrs", "tutorial", "mixed", "deprecated", "c12u", "c12u"]
 
         @st.composite
         def case(draw):
